@@ -20,7 +20,7 @@ EXTENDS Naturals, Sequences, FiniteSets, TLC
 Blanks == {"sp", "ht", "ff", "nl", "crlf"}
 Comments == {"lcmt", "bcmt", "ecmt", "scmt"}
 Directives == {"celldefine", "endcelldefine", "default_nettype", "timescale", "unconnected_drive", "nounconnected_drive",
-               "line", "define", "undef"}
+               "line", "define", "undef", "define_cont", "define_crlf"}
 Kinds == Blanks \cup Comments \cup Directives \cup {"resetall"}
 
 KindText(k) ==
@@ -29,7 +29,9 @@ KindText(k) ==
     [] k = "celldefine" -> "`celldefine " [] k = "endcelldefine" -> "`endcelldefine "
     [] k = "default_nettype" -> "`default_nettype wire " [] k = "timescale" -> "`timescale 1ns/1ps "
     [] k = "unconnected_drive" -> "`unconnected_drive pull1 " [] k = "nounconnected_drive" -> "`nounconnected_drive "
-    [] k = "line" -> "`line 7 \"f.v\" 0\n" [] k = "define" -> "`define TRIVIA_M 1\n" [] k = "undef" -> "`undef TRIVIA_M "
+    [] k = "line" -> "`line 7 \"f.v\" 0\n" [] k = "define" -> "`define TRIVIA_M 1\n"
+    \* a `define whose body continues over a backslash-newline (LF and CRLF line ends): still argument-closed
+    [] k = "define_cont" -> "`define TRIVIA_N a \\\n + b\n" [] k = "define_crlf" -> "`define TRIVIA_N a \\\r\n + b\r\n" [] k = "undef" -> "`undef TRIVIA_M "
     [] k = "resetall" -> "`resetall "
     [] OTHER -> "?"
 
